@@ -249,7 +249,7 @@ def submit_big(ex, spec):
 def lifecycle(spec, base, observe):
     """run one lifecycle; returns the deltas at the observation points (only when `observe`)"""
     from loky import ProcessPoolExecutor, get_reusable_executor
-    from .tt_member import t_noop, t_osexit, t_sleep, t_nested
+    from .tt_member import t_noop, t_osexit, t_sleep, t_nested, t_desc_sleep
     kind, n, m = spec["kind"], spec.get("n", 1), spec.get("m", 0)
     obs = {}
 
@@ -335,7 +335,12 @@ def lifecycle(spec, base, observe):
             del futs
         elif kind == "kill":
             busy = n if spec.get("big") else spec.get("busy", 0)
-            futs = [ex.submit(t_sleep, 60) for _ in range(busy)]
+            if spec.get("desc"):
+                # every worker has a live descendant when it is killed (kill_process_tree has a tree to walk)
+                futs = [ex.submit(t_desc_sleep, 60) for _ in range(n)]
+                time.sleep(1.0)
+            else:
+                futs = [ex.submit(t_sleep, 60) for _ in range(busy)]
             if futs:
                 time.sleep(0.1)
             futs += submit_big(ex, spec)
@@ -345,8 +350,8 @@ def lifecycle(spec, base, observe):
             del futs
         elif kind == "broken":
             if spec.get("how") == "sigkill":
-                futs = [ex.submit(t_sleep, 60) for _ in range(n)]
-                time.sleep(0.2)
+                futs = [ex.submit(t_desc_sleep if spec.get("desc") else t_sleep, 60) for _ in range(n)]
+                time.sleep(1.0 if spec.get("desc") else 0.2)
                 futs += submit_big(ex, spec)
                 os.kill(sorted(ex._processes)[0], signal.SIGKILL)
                 settle(futs, "the broken pool")
